@@ -31,6 +31,8 @@ pub struct Run {
     /// net change of rsp at the stop, in bytes (after a `ret` to the caller: +8)
     pub rsp_delta: i64,
     pub mem_writes: u32,
+    /// low byte of rax when only that byte was written (`mov al, imm8`)
+    pub al_only: Option<u8>,
     pub steps: u32,
     /// the instruction trace, for evidence and diagnostics
     pub trace: Vec<String>,
@@ -51,6 +53,12 @@ fn rd(mem: &dyn Fn(u64, usize) -> Option<Vec<u8>>, a: u64, n: usize) -> Option<V
 /// Execute from `entry`.  `mem(addr, n)` reads the post-installation memory image; `ours(addr)`
 /// says whether an address lies in memory the injector wrote (entry slot, trampolines).
 pub fn run(entry: u64, mem: &dyn Fn(u64, usize) -> Option<Vec<u8>>, ours: &dyn Fn(u64) -> bool, max_steps: u32) -> Run {
+    run_to(entry, mem, ours, max_steps, None)
+}
+
+/// As [`run`], additionally stopping as soon as control reaches `goal` (which may itself lie in
+/// injector-written memory).
+pub fn run_to(entry: u64, mem: &dyn Fn(u64, usize) -> Option<Vec<u8>>, ours: &dyn Fn(u64) -> bool, max_steps: u32, goal: Option<u64>) -> Run {
     let mut r = Run {
         stop: Stop::StepLimit,
         regs: [None; 16],
@@ -59,13 +67,14 @@ pub fn run(entry: u64, mem: &dyn Fn(u64, usize) -> Option<Vec<u8>>, ours: &dyn F
         flags_written: false,
         rsp_delta: 0,
         mem_writes: 0,
+        al_only: None,
         steps: 0,
         trace: Vec::new(),
     };
     let mut pc = entry;
     let mut stack: Vec<Option<u64>> = Vec::new(); // values pushed by the stub itself
     loop {
-        if r.steps > 0 && !ours(pc) {
+        if r.steps > 0 && (!ours(pc) || goal == Some(pc)) {
             r.stop = Stop::Left { pc };
             return r;
         }
@@ -184,8 +193,7 @@ pub fn run(entry: u64, mem: &dyn Fn(u64, usize) -> Option<Vec<u8>>, ours: &dyn F
                 i += 1;
                 r.regs[RAX] = r.regs[RAX].map(|o| (o & !0xFF) | v);
                 if r.regs[RAX].is_none() {
-                    // low byte known, rest initial: model as "al known" through a tagged value
-                    r.regs[RAX] = Some(v | AL_ONLY_TAG);
+                    r.al_only = Some(v as u8);
                 }
                 r.written |= 1 << RAX;
                 r.trace.push(format!("mov al, {v:#x}"));
@@ -216,7 +224,7 @@ pub fn run(entry: u64, mem: &dyn Fn(u64, usize) -> Option<Vec<u8>>, ours: &dyn F
                 if modrm & 0xC0 == 0xC0 && ext == 4 {
                     let reg = (modrm & 7) as usize + 8 * rex_b;
                     match r.regs[reg] {
-                        Some(v) if v & AL_ONLY_TAG == 0 => {
+                        Some(v) => {
                             r.trace.push(format!("jmp r{reg} (={v:#x})"));
                             pc = v;
                         }
@@ -337,11 +345,7 @@ pub fn run(entry: u64, mem: &dyn Fn(u64, usize) -> Option<Vec<u8>>, ours: &dyn F
     }
 }
 
-/// Tag bit (never a canonical user-space address bit pattern by itself: bit 62) marking "only the
-/// low byte of this register is known".
-pub const AL_ONLY_TAG: u64 = 1 << 62;
-
 /// The low byte of rax at the stop, if known.
 pub fn al(r: &Run) -> Option<u8> {
-    r.regs[RAX].map(|v| v as u8)
+    r.regs[RAX].map(|v| v as u8).or(r.al_only)
 }
